@@ -313,9 +313,15 @@ class Fn:
             return self.expr(ast.Name(id=ret, ctx=ast.Load()))[0]
         if isinstance(s, ast.Expr) and isinstance(s.value, ast.Constant):
             return self.block(rest, k)
+        if isinstance(s, ast.Assert) and self.cfg.get("allow_assert"):
+            return self.block(rest, k)           # preconditions are stated in the theorems, not in the definition
         if isinstance(s, ast.Return):
             if s.value is None:
                 self.fail(s, "bare return")
+            if isinstance(s.value, ast.Tuple):
+                if "tuple_elem" not in self.cfg:
+                    self.fail(s, "tuple return")
+                s = ast.Return(value=s.value.elts[self.cfg["tuple_elem"]])
             g, t = self._expr(s.value)
             want = self.cfg.get("ret_type", Z)
             if t != want:
@@ -505,6 +511,9 @@ SPECS = {
          {"name": "_cnot_count_iso_qsd", "recursive": True, "param_types": {"apply_a2": B}}],
         [{"name": "_cnot_count_estimate", "params": ["n_qubits", "decomposition", "iso", "apply_a2"],
           "param_types": {"apply_a2": B}, "skip_first": 1, "fuel_expr": "(Z.to_nat (2 * n_qubits + 2))"}]]),
+    "Gen_iota": ("qclib/entanglement.py", {}, [
+        [{"name": "_get_iota", "rename": "iota_delta", "tuple_elem": 0, "ret_type": B, "allow_assert": True}],
+        [{"name": "_get_iota", "rename": "iota_index", "tuple_elem": 1, "allow_assert": True}]]),
     "Gen_isometry_counts": ("qclib/isometry.py", {}, [
         [{"name": "_k_s"}], [{"name": "_a"}], [{"name": "_b"}],
         [{"name": "_cnot_count_estimate_ccd"}]]),
